@@ -729,7 +729,7 @@ class Client(BaseClient):
         """
         path = pathlib.PurePosixPath(path)
         need_create = []
-        while path.name and not await self.exists(path):
+        while path.name and not (await self.exists(path) and await self.is_dir(path)):
             need_create.append(path)
             path = path.parent
             if not parents:
